@@ -256,6 +256,54 @@ func (e *Enc) extCall(ins ssa.Instruction, name string, callee *ssa.Function, si
 		e.assert(e.refOld(rs[0], h))
 		e.setResult(res, rs)
 		return true
+	case "bytes.Join":
+		// bytes.Join over a slice literal [][]byte{a, b, ...}: a fresh slice holding a ++ sep ++ b ++ ...
+		ci := ins.(ssa.CallInstruction).Common()
+		elems, okE := literalSliceElems(ci.Args[0])
+		if !okE {
+			return false
+		}
+		trust("bytes.Join of a slice literal returns a fresh slice holding the elements separated by sep; writes nothing else")
+		rs := e.freshResults(sig, h)
+		e.havocKey(h, "$A")
+		e.assertFresh(rs[0], h)
+		total := "0"
+		var content string
+		sepNil := false
+		if sc, isC := ci.Args[1].(*ssa.Const); isC && sc.IsNil() {
+			sepNil = true
+		}
+		for i, el := range elems {
+			ev := e.val(el)
+			if ev.S != "Slice" {
+				return false
+			}
+			if i > 0 {
+				total = app("+", total, app("slen", args[1].T))
+			}
+			total = app("+", total, app("slen", ev.T))
+			if e.token {
+				c := e.tokBytes(h, ev.T)
+				if i > 0 && !sepNil {
+					c = app("bcat", e.tokBytes(h, args[1].T), c)
+				}
+				if content == "" {
+					content = c
+				} else {
+					content = app("bcat", content, c)
+				}
+			}
+		}
+		e.assert(implies(reach, app("=", app("slen", rs[0].T), total)))
+		if e.token {
+			e.needB = true
+			if content == "" {
+				content = "beps"
+			}
+			e.assert(implies(reach, app("=", e.tokBytes(h, rs[0].T), content)))
+		}
+		e.setResult(res, rs)
+		return true
 	case "bytes.Equal":
 		trust("total; true implies equal lengths")
 		rs := e.freshResults(sig, h)
@@ -288,6 +336,18 @@ func (e *Enc) extCall(ins ssa.Instruction, name string, callee *ssa.Function, si
 	case "log.Fatal", "log.Fatalf", "log.Fatalln", "os.Exit", "log.Panic", "log.Panicf", "log.Panicln":
 		e.oblige("exit", callee.Name(), "", pos, not(reach))
 		e.defaultCall(ins, sig, res, map[string]bool{}, "")
+		return true
+	}
+	if hf, ok := map[string][2]string{"crypto/sha256.Sum256": {"bsha256", "32"}, "crypto/sha1.Sum": {"bsha1", "20"}}[name]; ok && e.token && res != nil {
+		trust("deterministic hash of the input bytes: returns the digest as an array value and does not modify its argument")
+		rs := e.freshResults(sig, h)
+		e.needB = true
+		content := app(hf[0], e.tokBytes(h, args[0].T))
+		if e.hashArr == nil {
+			e.hashArr = map[ssa.Value]string{}
+		}
+		e.hashArr[res] = content
+		e.setResult(res, rs)
 		return true
 	}
 	if hf, ok := map[string][2]string{
@@ -734,4 +794,50 @@ func (e *Enc) sprintfContent(name string, ins ssa.Instruction) (string, bool) {
 		t = app("bcat", parts[i], t)
 	}
 	return t, true
+}
+
+// literalSliceElems: the element values of a slice literal `[]T{e0, e1, ...}` (an Alloc of an array, one store per
+// index, sliced once).
+func literalSliceElems(v ssa.Value) ([]ssa.Value, bool) {
+	sl, ok := v.(*ssa.Slice)
+	if !ok {
+		return nil, false
+	}
+	al, ok := sl.X.(*ssa.Alloc)
+	if !ok {
+		return nil, false
+	}
+	arr, ok := under(al.Type().(*types.Pointer).Elem()).(*types.Array)
+	if !ok {
+		return nil, false
+	}
+	vals := make([]ssa.Value, arr.Len())
+	for _, ref := range *al.Referrers() {
+		switch r := ref.(type) {
+		case *ssa.IndexAddr:
+			k, isC := isConstInt(r.Index)
+			if !isC || k < 0 || k >= arr.Len() {
+				return nil, false
+			}
+			for _, r2 := range *r.Referrers() {
+				st, ok := r2.(*ssa.Store)
+				if !ok || st.Addr != r || vals[k] != nil {
+					return nil, false
+				}
+				vals[k] = st.Val
+			}
+		case *ssa.Slice:
+			if r != sl {
+				return nil, false
+			}
+		default:
+			return nil, false
+		}
+	}
+	for _, x := range vals {
+		if x == nil {
+			return nil, false
+		}
+	}
+	return vals, true
 }
